@@ -1,6 +1,7 @@
 //! Model of the three ntex-util items the woven slice needs.
 pub mod future {
     pub use crate::future_ready::Ready;
+    pub use crate::future_select::select;
     use std::{future::Future, pin::Pin, task::{Context, Poll}};
     #[derive(Debug, Clone, Copy, PartialEq, Eq)]
     pub enum Either<A, B> {
@@ -249,6 +250,9 @@ pub mod hash_map {
 }
 
 pub mod channel {
+    pub mod condition {
+        pub use crate::channel_condition::{Condition, Waiter};
+    }
     /// Error returned from a `Receiver` when the corresponding `Sender` is dropped.
     #[derive(Debug, Copy, Clone, PartialEq, Eq)]
     pub struct Canceled;
@@ -480,6 +484,118 @@ pub mod channel {
             fn drop(&mut self) {
                 self.shared().rx_alive.set(false);
             }
+        }
+    }
+}
+
+// ---------------------------------------------------------------------------------------------
+// Models for the extracted `call_service` of io.rs: select, spawn, Condition.
+pub mod future_select {
+    use crate::future::Either;
+    use std::{future::Future, pin::Pin, task::{Context, Poll}};
+    /// `ntex_util::future::select`: polls `a`, then `b`; the first ready one wins
+    pub struct Select<A, B> {
+        a: A,
+        b: B,
+    }
+    pub fn select<A: Future, B: Future>(a: A, b: B) -> Select<A, B> {
+        Select { a, b }
+    }
+    impl<A: Future, B: Future> Future for Select<A, B> {
+        type Output = Either<A::Output, B::Output>;
+        fn poll(self: Pin<&mut Self>, cx: &mut Context<'_>) -> Poll<Self::Output> {
+            let this = unsafe { self.get_unchecked_mut() };
+            if let Poll::Ready(x) = unsafe { Pin::new_unchecked(&mut this.a) }.poll(cx) {
+                return Poll::Ready(Either::Left(x));
+            }
+            if let Poll::Ready(x) = unsafe { Pin::new_unchecked(&mut this.b) }.poll(cx) {
+                return Poll::Ready(Either::Right(x));
+            }
+            Poll::Pending
+        }
+    }
+}
+
+/// `ntex_util::spawn`: the task is parked in a table; `model_run_spawned()` polls every parked task
+/// once, in spawn order (a harness decides when the executor runs)
+pub const TASK_CAP: usize = 2;
+/// A parked task is a leaked future plus a monomorphic poll thunk. No `dyn Future`: CBMC resolves an
+/// indirect call to EVERY function whose low-level signature matches, and `Future::poll` of a
+/// `dyn Future<Output = ()>` has the signature of every `fmt::Debug::fmt` in the program (measured:
+/// the whole formatting machinery was expanded at each poll). The thunk has a deliberately odd
+/// signature so that it is the only candidate; tasks are never dropped.
+#[derive(Copy, Clone)]
+struct Task {
+    data: *mut (),
+    poll: fn(*mut (), u128, i16) -> u64,
+}
+fn poll_thunk<F: std::future::Future<Output = ()>>(p: *mut (), _a: u128, _b: i16) -> u64 {
+    let f = unsafe { &mut *(p as *mut F) };
+    let mut cx = std::task::Context::from_waker(std::task::Waker::noop());
+    if unsafe { std::pin::Pin::new_unchecked(f) }.poll(&mut cx).is_pending() { 1 } else { 0 }
+}
+static mut TASKS: [Option<Task>; TASK_CAP] = [None; TASK_CAP];
+pub fn spawn<F>(f: F)
+where
+    F: std::future::Future<Output = ()> + 'static,
+{
+    let mut i = 0;
+    while i < TASK_CAP {
+        let free = unsafe { (*std::ptr::addr_of!(TASKS))[i].is_none() };
+        if free {
+            let data = Box::into_raw(Box::new(f)) as *mut ();
+            unsafe {
+                (*std::ptr::addr_of_mut!(TASKS))[i] = Some(Task { data, poll: poll_thunk::<F> });
+            }
+            return;
+        }
+        i += 1;
+    }
+    panic!("MODEL CAPACITY: at most TASK_CAP spawned tasks");
+}
+/// polls every parked task once, in spawn order; returns the number still pending afterwards
+pub fn model_run_spawned() -> usize {
+    let mut left = 0;
+    let mut i = 0;
+    while i < TASK_CAP {
+        let t = unsafe { (*std::ptr::addr_of!(TASKS))[i] };
+        if let Some(t) = t {
+            if (t.poll)(t.data, 0, 0) == 1 {
+                left += 1;
+            } else {
+                unsafe {
+                    (*std::ptr::addr_of_mut!(TASKS))[i] = None;
+                }
+            }
+        }
+        i += 1;
+    }
+    left
+}
+pub mod channel_condition {
+    use std::{cell::Cell, future::Future, pin::Pin, rc::Rc, task::{Context, Poll}};
+    /// `ntex_util::channel::condition::Condition` (unit payload): `wait()` futures complete after `notify()`
+    #[derive(Clone)]
+    pub struct Condition(Rc<Cell<bool>>);
+    pub struct Waiter(Rc<Cell<bool>>);
+    impl Condition {
+        pub fn new() -> Self {
+            Condition(Rc::new(Cell::new(false)))
+        }
+        pub fn wait(&self) -> Waiter {
+            Waiter(self.0.clone())
+        }
+        pub fn notify(&self) {
+            self.0.set(true)
+        }
+        pub fn notify_and_lock_readiness(&self) {
+            self.0.set(true)
+        }
+    }
+    impl Future for Waiter {
+        type Output = ();
+        fn poll(self: Pin<&mut Self>, _cx: &mut Context<'_>) -> Poll<()> {
+            if self.0.get() { Poll::Ready(()) } else { Poll::Pending }
         }
     }
 }
